@@ -68,7 +68,7 @@ MsOnlyP1  == [p \in Peers |-> IF p = "p1" THEN "v1" ELSE "bad"]
 MsSet     == {MsGood, MsP2Bad, MsOnlyP1}
 Defaults  == {<<0 - 1, 0 - 1>>, <<1, 2>>, <<2, 3>>}
 EnvOf(fo, d, st, m, fl) == [follower |-> fo, dmin |-> d[1], dmax |-> d[2], strat |-> st, ms |-> m, paths |-> AllPaths,
-                            blocks |-> AllBlocks, fail |-> fl, logfail |-> <<>>, deferred |-> FALSE]
+                            blocks |-> AllBlocks, fail |-> fl, logfail |-> <<>>, deferred |-> FALSE, getfail |-> <<>>]
 WithLF(e, lf) == [e EXCEPT !.logfail = lf]
 \* consensus faults: LogUnpin failing for a shard in either position, the cluster-DAG, the meta pin, a data pin;
 \* LogPin failing for a CID
@@ -113,5 +113,11 @@ OtherCalls == {PinCall(c, o) : c \in AllCids \ {"c1"}, o \in FewOpts \cup {[Plai
               \cup {PathCall(p, o) : p \in PathNames, o \in FewOpts \cup {[PlainOpt EXCEPT !.upd = "c2"]}}
               \cup {UnpathCall(p) : p \in PathNames}
               \cup {RpcCall(p) : p \in TypedReqs}
-Calls == C1Calls \cup OtherCalls
+\* entry point: every call by the Go method; the RPC endpoint for all the small-lattice calls and a slice of the c1 lattice
+Via(c, v) == [via |-> v] @@ c
+HasEndpoint(c) == c.op \in {"pin", "unpin", "pinpath", "unpinpath"}
+RpcC1Opts == FewOpts \cup {o \in AllOpts : o.name = "n2" /\ o.exp = "f1" /\ o.orig = <<>>}
+Calls == {Via(c, "go") : c \in (C1Calls \cup OtherCalls) \ {x \in OtherCalls : x.op = "rpcpin"}}
+         \cup {c \in OtherCalls : c.op = "rpcpin"}
+         \cup {Via(c, "rpc") : c \in {x \in OtherCalls : HasEndpoint(x)} \cup {PinCall("c1", o) : o \in RpcC1Opts}}
 =============================================================================
